@@ -102,7 +102,9 @@ def check(ctx):
           ("group", f"self._tasks.add({t})"), ("scope", f"self.cancel_scope._tasks.add({t})"),
           ("state", [f"_task_states[{t}] = TaskState(parent_id=$P, cancel_scope=self.cancel_scope)",
                      f"_task_states[{t}] = TaskState($P, self.cancel_scope)"]),
-          ("cb", f"{t}.add_done_callback({done.node.name})")]
+          # (the callback is the closure itself, or - after "closure moved to a method" - the bound method with its captured state)
+          ("cb", [f"{t}.add_done_callback({done.node.name})", f"{t}.add_done_callback(partial(self.{done.node.name}, $*A))",
+                  f"{t}.add_done_callback(functools.partial(self.{done.node.name}, $*A))"])]
 
     def step_c(st, e, c):
         if c.is_exc:
